@@ -4,10 +4,14 @@ SS = "mithril-stm/src/proof_system/concatenation/single_signature.rs"
 PR = "mithril-stm/src/proof_system/concatenation/proof.rs"
 AK = "mithril-stm/src/proof_system/concatenation/aggregate_key.rs"
 
+PRE_POST = ("Ok((sigs,vks)) ==> all indices over all signatures pairwise distinct, each < m, each WON with the signature's own committed stake and avk.total_stake on msg||root; count >= k; "
+            "Merkle membership of [(vk_j, stake_j)] in order checked against avk commitment with this proof's batch path; (sigs,vks) == [(sigma_j, vk_j)]")
+PRE_FN = ["ConcatenationProof::preliminary_verify", "SingleSignature::check_indices", "ConcatenationProof::collect_signatures_verification_keys"]
 PROP = Property(
     "C01", "proof",
     kani=[KaniUnit(
         crate="mithril-stm",
+        env={"RUSTFLAGS": "-Zcrate-attr=feature(allocator_api)"},  # the HashSet<T, S, A> contract stubs name the allocator parameter
         attach=[(SS, "contracts/mithril-stm/c01_common.rs", "verif_c01_common"),
                 (AK, "contracts/mithril-stm/c01_avk_ctor.rs", "verif_c01_avk"),
                 (PR, "contracts/mithril-stm/c01_proof.rs", "verif_c01_proof")],
@@ -20,14 +24,11 @@ PROP = Property(
             H("c01_single_signature_verify", "bounded",
               "Ok ==> BlsSignature::verify(sigma, msg||avk.root, pk) succeeded for the given pk, and check_indices post for (msg||root, stake, avk.total_stake)",
               ["SingleSignatureForConcatenation::verify"], bound="1 index, 1-byte message, 1-byte root", replay="none"),
-            H("c01_preliminary_verify_1x2", "bounded", "Ok((sigs,vks)) ==> all indices over all signatures pairwise distinct, each < m, each WON with the signature's own committed stake and avk.total_stake on msg||root; count >= k; Merkle membership of [(vk_j, stake_j)] in order checked against avk commitment with this proof's batch path; (sigs,vks) == [(sigma_j, vk_j)]", ["ConcatenationProof::preliminary_verify", "SingleSignature::check_indices", "ConcatenationProof::collect_signatures_verification_keys"], bound="1 signature x <= 2 indices; u64 indices / stakes / k / m fully symbolic", replay="none", timeout=900),
-            H("c01_preliminary_verify_2x1", "bounded", "Ok((sigs,vks)) ==> all indices over all signatures pairwise distinct, each < m, each WON with the signature's own committed stake and avk.total_stake on msg||root; count >= k; Merkle membership of [(vk_j, stake_j)] in order checked against avk commitment with this proof's batch path; (sigs,vks) == [(sigma_j, vk_j)]", ["ConcatenationProof::preliminary_verify", "SingleSignature::check_indices", "ConcatenationProof::collect_signatures_verification_keys"], bound="<= 2 signatures x <= 1 index each", replay="none", timeout=900),
-            H("c01_verify_2x1", "bounded", "Ok ==> preliminary_verify post and BlsSignature::verify_aggregate(msg||root, [vk_j], [sigma_j]) succeeded on exactly the contained pairs",
-              ["ConcatenationProof::verify"], bound="<= 2 signatures x <= 1 index each", replay="none", timeout=900),
-            H("c01_preliminary_verify_2x2", "bounded", "Ok((sigs,vks)) ==> all indices over all signatures pairwise distinct, each < m, each WON with the signature's own committed stake and avk.total_stake on msg||root; count >= k; Merkle membership of [(vk_j, stake_j)] in order checked against avk commitment with this proof's batch path; (sigs,vks) == [(sigma_j, vk_j)]", ["ConcatenationProof::preliminary_verify", "SingleSignature::check_indices", "ConcatenationProof::collect_signatures_verification_keys"], bound="<= 2 signatures x <= 2 indices", replay="none", tier="thorough", timeout=7000),
-            H("c01_verify_2x2", "bounded", "Ok ==> preliminary_verify post and aggregate verification on exactly the contained pairs",
-              ["ConcatenationProof::verify"], bound="<= 2 signatures x <= 2 indices", replay="none", tier="thorough", timeout=7000),
-        ])],
+        ] + [H("c01_preliminary_verify_n%d_%d_%d" % sh, "bounded", PRE_POST, PRE_FN, bound="shape: %d signatures with (%d, %d) indices; all values symbolic (u64 indices, stakes, k, m; phi_f; message, root)" % ((sh[0],) + sh[1:]),
+               replay="none", timeout=900, tier=("thorough" if sh in [(2, 2, 2)] else "quick")) for sh in [(0, 0, 0), (1, 1, 0), (1, 2, 0), (2, 1, 1), (2, 2, 1), (2, 2, 2)]]
+          + [H("c01_verify_n%d_%d_%d" % sh, "bounded", "Ok ==> preliminary_verify post and BlsSignature::verify_aggregate(msg||root, [vk_j], [sigma_j]) succeeded on exactly the contained (signature, committed key) pairs",
+               ["ConcatenationProof::verify"], bound="shape: %d signatures with (%d, %d) indices" % sh, replay="none", timeout=900, tier=("thorough" if sh == (2, 2, 1) else "quick")) for sh in [(1, 1, 0), (2, 1, 1), (2, 2, 1)]]
+        )],
     verus=[VerusUnit(
         "check_indices", "verus/C01/check_indices.tmpl.rs",
         "extracted text of check_indices: Ok ==> forall j < |indexes|: indexes[j] < m and lottery(phi_f, dense(sigma,msg,indexes[j]), stake, total) (unbounded number of indices); "
